@@ -30,6 +30,8 @@ var (
 	fresh    = common.HexToAddress("0xf7e5400000000000000000000000000000000003")
 	callee   = common.HexToAddress("0xca11ee0000000000000000000000000000000004")
 	inner    = common.HexToAddress("0x1111e70000000000000000000000000000000005")
+	inner2   = common.HexToAddress("0x2222e70000000000000000000000000000000006")
+	drvAddr  = common.HexToAddress("0xd71ce70000000000000000000000000000000007")
 )
 
 // scenario = what the transaction calls / creates
@@ -42,6 +44,7 @@ type scenario struct {
 	calleeBal *big.Int
 	extra    []Acct          // additional accounts
 	needGas  uint64          // execution gas that is certainly enough
+	wantCounter *uint64      // refund counter the execution must end with when it runs to completion (independent expectation)
 	byzOnly  bool            // uses REVERT
 }
 
@@ -86,6 +89,21 @@ func scenarios(sender common.Address, senderNonce uint64) []scenario {
 		{name: "inner-call-reverts", to: callee, code: A().Call(30000, inner, 2).Op(POP).SStore(2, 1).Op(STOP).B, calleeBal: big.NewInt(10),
 			extra: []Acct{{Addr: inner, Code: A().SStore(0, 1).Op(INVALID).B}}, needGas: 120000},
 		{name: "inner-create-value", to: callee, code: A().Create(2, A().SStore(0, 1).Op(STOP).B).Op(POP).Op(STOP).B, calleeBal: big.NewInt(10), needGas: 120000},
+		// refund counter hazards: refunds earned in a frame that fails must not be credited; SSTORE clears and a
+		// SELFDESTRUCT refund together exceed the cap; a second SELFDESTRUCT of the same contract earns nothing
+		{name: "refund:inner-clear-then-fail", to: callee, code: A().Call(60000, inner, 0).Op(POP).SStore(2, 1).Op(STOP).B,
+			extra: []Acct{{Addr: inner, Code: A().SStore(0, 0).Op(INVALID).B, Storage: map[byte]byte{0: 1}}}, needGas: 150000, wantCounter: u64p(0)},
+		{name: "refund:inner-clear-then-revert", to: callee, code: A().Call(60000, inner, 0).Op(POP).SStore(2, 1).Op(STOP).B, byzOnly: true,
+			extra: []Acct{{Addr: inner, Code: A().SStore(0, 0).Push(0).Push(0).Op(REVERT).B, Storage: map[byte]byte{0: 1}}}, needGas: 150000, wantCounter: u64p(0)},
+		{name: "refund:clear2-and-selfdestruct", to: callee, code: A().SStore(0, 0).SStore(1, 0).PushAddr(sink).Op(SELFDESTRUCT).B,
+			storage: map[byte]byte{0: 1, 1: 1}, calleeBal: big.NewInt(10), needGas: 150000, wantCounter: u64p(2*15000 + 24000)},
+		{name: "refund:selfdestruct-twice", to: callee, code: A().Call(60000, inner, 0).Op(POP).Call(60000, inner, 1).Op(POP).Call(60000, inner, 0).Op(POP).Op(STOP).B, calleeBal: big.NewInt(10),
+			extra: []Acct{{Addr: inner, Code: A().PushAddr(sink).Op(SELFDESTRUCT).B, Bal: big.NewInt(5)}}, needGas: 250000, wantCounter: u64p(24000)},
+		{name: "refund:selfdestruct-in-failed-frame", to: callee, code: A().Call(90000, inner2, 0).Op(POP).SStore(2, 1).Op(STOP).B,
+			extra: []Acct{{Addr: inner2, Code: A().Call(60000, inner, 0).Op(POP).SStore(0, 0).Op(INVALID).B, Storage: map[byte]byte{0: 1}},
+				{Addr: inner, Code: A().PushAddr(sink).Op(SELFDESTRUCT).B, Bal: big.NewInt(5)}}, needGas: 250000, wantCounter: u64p(0)},
+		{name: "refund:failed-frame-then-real-clear", to: callee, code: A().Call(60000, inner, 0).Op(POP).SStore(0, 0).Op(STOP).B, storage: map[byte]byte{0: 1},
+			extra: []Acct{{Addr: inner, Code: A().SStore(0, 0).SStore(1, 0).Op(INVALID).B, Storage: map[byte]byte{0: 1, 1: 1}}}, needGas: 150000, wantCounter: u64p(15000)},
 		{name: "create-ok", create: true, code: InitReturning(A().SStore(0, 1).Op(STOP).B), needGas: 60000},
 		{name: "create-empty-init", create: true, code: nil, needGas: 1000},
 		{name: "create-init-sstore", create: true, code: A().SStore(0, 1).Op(STOP).B, needGas: 60000},
@@ -96,6 +114,8 @@ func scenarios(sender common.Address, senderNonce uint64) []scenario {
 		{name: "create-on-funded-address", create: true, code: InitReturning(A().Op(STOP).B), extra: []Acct{{Addr: createdAddr, Bal: big.NewInt(5)}}, needGas: 60000},
 	}
 }
+
+func u64p(x uint64) *uint64 { return &x }
 
 type cfgChoice struct {
 	cfg  Cfg
@@ -133,6 +153,7 @@ type txCase struct {
 	price    *big.Int
 	value    *big.Int
 	limit    uint64
+	fullRun  bool // the gas limit is certainly enough for the scenario to run to completion
 	data     []byte
 	bal      *big.Int
 	coinbase common.Address
@@ -233,9 +254,11 @@ func genCase(c *vh.Ctx) *txCase {
 	case 4:
 		k.limit = intr + k.sc.needGas + 100000
 		lclass += "ample"
+		k.fullRun = true
 	default:
 		k.limit = intr + k.sc.needGas
 		lclass += "enough"
+		k.fullRun = true
 	}
 	// pool lattice
 	pclass := "pool="
@@ -325,7 +348,7 @@ func (k *txCase) finish(byz bool) {
 			}
 		}
 	}
-	k.u = Universe{k.sender, coinbase, sink, fresh, callee, inner, common.BytesToAddress([]byte{4}), common.BytesToAddress([]byte{3}), common.BytesToAddress([]byte{2}),
+	k.u = Universe{k.sender, coinbase, sink, fresh, callee, inner, inner2, common.BytesToAddress([]byte{4}), common.BytesToAddress([]byte{3}), common.BytesToAddress([]byte{2}),
 		crypto.CreateAddress(k.sender, k.stNonce), crypto.CreateAddress(callee, 0), crypto.CreateAddress(callee, 1)}.Sorted()
 	fmtByz := "pre-byz"
 	if byz {
@@ -379,6 +402,7 @@ func directedCase(i int) *txCase {
 	if sp.extraGas >= 0 {
 		k.limit = intrinsicSpec(k.data, k.sc.create) + uint64(sp.extraGas)
 	}
+	k.fullRun = sp.extraGas < 0
 	k.bal = Add(Mul(U(k.limit), k.price), Big("5000000000000000000"))
 	k.finish(k.cc.cfg.C.IsByzantium(new(big.Int).SetUint64(k.cc.num)))
 	k.class = "directed:" + sp.tag + ":" + k.class
@@ -639,6 +663,12 @@ func runCase(c *vh.Ctx, m *vh.Model, k *txCase) {
 		if refund != wantRefund {
 			c.Violate("refund-amount/"+k.sc.name, fmt.Sprintf("refund %d want %d (counter %d)", refund, wantRefund, t.Refund), replay)
 		}
+		if k.sc.wantCounter != nil && k.fullRun && !failed && (!k.sc.byzOnly || cfg.IsByzantium(num)) {
+			if t.Refund != *k.sc.wantCounter {
+				c.Violate("refund-counter/"+k.sc.name, fmt.Sprintf("refund counter %d at the end of the execution, the scenario earns %d (refunds of failed frames must not count, a contract's second SELFDESTRUCT earns nothing)", t.Refund, *k.sc.wantCounter), replay)
+			}
+			c.Count("oracle:refund-counter-checked")
+		}
 		if refund > 0 && refund == consumed/2 {
 			c.Count("oracle:refund-at-cap")
 		} else if refund > 0 {
@@ -745,6 +775,14 @@ func genBlock(c *vh.Ctx) *blockCase {
 	failing := A().SStore(2, 1).Op(INVALID).B
 	b.world = []Acct{{Addr: addrA, Bal: Big("1000000000000000000"), Nonce: 3}, {Addr: addrB, Bal: Big("1000000000000000000")},
 		{Addr: callee, Code: calleeCode, Storage: map[byte]byte{0: 1}}, {Addr: inner, Code: failing}, {Addr: sink, Bal: big.NewInt(1)}}
+	// a target that accepts calls carrying value and self-destructs (to sink) on calls without, clearing a slot first; and a
+	// driver that destructs it, funds it, and destructs it three more times: SSTORE-clear + SELFDESTRUCT refunds in one transaction
+	target := A().Op(0x34, ISZERO).Push(6).Op(JUMPI, STOP, JUMPDEST).SStore(0, 0).PushAddr(sink).Op(SELFDESTRUCT).B
+	driver := A()
+	for _, v := range []uint64{0, 5, 0, 0, 0} {
+		driver.Call(70000, inner2, v).Op(POP)
+	}
+	b.world = append(b.world, Acct{Addr: inner2, Code: target, Bal: big.NewInt(10), Storage: map[byte]byte{0: 1}}, Acct{Addr: drvAddr, Code: driver.Op(STOP).B, Bal: big.NewInt(30)})
 	nonce := map[common.Address]uint64{addrA: 3, addrB: 0}
 	n := 1 + r.Intn(4)
 	sum := uint64(0)
@@ -756,7 +794,7 @@ func genBlock(c *vh.Ctx) *blockCase {
 		}
 		price := big.NewInt(int64(r.Intn(3)))
 		var tx *types.Transaction
-		kind := r.Intn(5)
+		kind := r.Intn(6)
 		limit := uint64(100000)
 		switch kind {
 		case 0:
@@ -766,13 +804,16 @@ func genBlock(c *vh.Ctx) *blockCase {
 			tx = types.NewTransaction(nonce[from], callee, big.NewInt(0), limit, price, []byte{1, 0})
 		case 2:
 			tx = types.NewTransaction(nonce[from], inner, big.NewInt(1), limit, price, nil)
+		case 5:
+			limit = 500000
+			tx = types.NewTransaction(nonce[from], drvAddr, big.NewInt(0), limit, price, nil)
 		case 3:
 			tx = types.NewContractCreation(nonce[from], big.NewInt(1), limit, price, InitReturning(A().Op(STOP).B))
 		default:
 			tx = types.NewTransaction(nonce[from], fresh, big.NewInt(0), 21000, price, nil)
 			limit = 21000
 		}
-		kinds = append(kinds, []string{"transfer", "call-clear", "call-fail", "create", "zero-to-fresh"}[kind])
+		kinds = append(kinds, []string{"transfer", "call-clear", "call-fail", "create", "zero-to-fresh", "multi-destruct-driver"}[kind])
 		// sometimes break the nonce sequence
 		if r.Intn(25) == 0 {
 			tx = types.NewTransaction(nonce[from]+1, sink, big.NewInt(5), 21000, price, nil)
@@ -804,7 +845,7 @@ func genBlock(c *vh.Ctx) *blockCase {
 			b.claimDelta = 1
 		}
 	}
-	b.u = Universe{addrA, addrB, coinbase, sink, fresh, callee, inner,
+	b.u = Universe{addrA, addrB, coinbase, sink, fresh, callee, inner, inner2, drvAddr,
 		crypto.CreateAddress(addrA, 3), crypto.CreateAddress(addrA, 4), crypto.CreateAddress(addrA, 5), crypto.CreateAddress(addrA, 6), crypto.CreateAddress(addrA, 7),
 		crypto.CreateAddress(addrB, 0), crypto.CreateAddress(addrB, 1), crypto.CreateAddress(addrB, 2), crypto.CreateAddress(addrB, 3), crypto.CreateAddress(addrB, 4)}.Sorted()
 	fmtByz := "pre-byz"
